@@ -1225,16 +1225,23 @@ class Builder:
                         self.g.root.cls is not None:
                     facts = self.prog.self_attr_facts(self.g.root.cls).get(
                         p[1], [])
-                    if facts and all(is_builtin_container(pl)
-                                     for kind, pl, f, n in facts
-                                     if kind == 'other') and \
-                            all(kind == 'other' for kind, pl, f, n in facts):
+                    if self.container_field(facts):
                         return True
         p = self.canon(call.func, fr)
         if p is not None and len(p) >= 2 and p[-1] in ('acquire', 'release') \
                 and self.lock_path_from_canon(p[:-1], fr):
             return True
         return False
+
+    @staticmethod
+    def container_field(facts):
+        """Every assignment of the field is a builtin container (or None)."""
+        return bool(facts) and all(
+            kind == 'other' and pl is not None and (
+                is_builtin_container(pl) or (
+                    isinstance(pl, ast.Constant) and pl.value is None))
+            for kind, pl, f, n in facts) and any(
+            is_builtin_container(pl) for kind, pl, f, n in facts)
 
     def lock_path_from_canon(self, p, fr):
         if self.path_type(p, fr) in ('lock:Lock', 'lock:RLock',
@@ -1251,6 +1258,14 @@ class Builder:
                     if not self.call_is_nonraising(n, fr):
                         return True
                 elif isinstance(n, ast.Subscript):
+                    if isinstance(n.ctx, ast.Store) and dotted(n.value) and \
+                            self.g.root.cls is not None:
+                        p = self.canon(n.value, fr)
+                        if p is not None and p[0] == 'self' and len(p) == 2 \
+                                and self.container_field(
+                                    self.prog.self_attr_facts(
+                                        self.g.root.cls).get(p[1], [])):
+                            continue    # d[k] = v on a builtin dict field
                     return True
                 elif isinstance(n, (ast.Delete, ast.Await, ast.Yield,
                                     ast.YieldFrom)):
